@@ -114,11 +114,12 @@ def check_hist(case, ctx):
             n_before = len(cache)
             inst = fn = ba = None      # the harness must not keep the instance alive itself
             insts[op[1]] = None
-            gc.collect()
             for k in [k for k in model if k[0] == op[1]]:
                 del model[k]
             touched.discard(op[1])
             live = len(touched)
+            if len(cache) != live:
+                gc.collect()       # only needed if something formed a cycle
             if len(cache) != live:
                 bad("instance", "%d per-instance caches alive after an instance died, expected %d" % (len(cache), live))
             classes.add("instance-death")
